@@ -3,7 +3,7 @@
 From Coq Require Import List NArith Arith Bool Lia.
 From XmlRs Require Import Base.CPred Spec.XPathSyntax Model.Peg Model.XPathAst
   Model.ParseActionsXPath Model.XPathAstAbs Gen.GrammarXPathGen
-  Proofs.PegTermination Proofs.XPathParseProds Proofs.XPathParseExpr Proofs.XPathParseSteps Proofs.XPathParseMain.
+  Proofs.PegTermination Proofs.XPathParseProds Proofs.XPathParseExpr Proofs.XPathParseSteps Proofs.XPathParseMain Proofs.XPathSyntaxLemmas.
 Import ListNotations.
 
 (** the parser of XPath expressions terminates on every input (parser half of C06) *)
@@ -43,6 +43,24 @@ Proof.
   intros a sp (Hwf & Heq & Hws) Hr.
   destruct (parse_spell_surface_all (surface sp) (white sp) Hwf Hr Hws) as (e & Hp & Hab).
   exists e. split; [exact Hp|]. rewrite Hab. exact Heq.
+Qed.
+
+(** every tree with lexically valid leaves has a spelling: the one with minimal parentheses *)
+Lemma every_tree_has_a_spelling_proof : forall (a : xexpr) (w : wtree),
+  leaves_ok a = true -> ws_ok w = true -> ok_spelling a {| surface := paren a; white := w |}.
+Proof.
+  intros a w Hl Hw. split; [apply paren_wf, Hl|]. split; [apply paren_equiv|exact Hw].
+Qed.
+
+(** the general form of "operators bind and associate as the grammar prescribes": the spelling of
+    ANY tree with only the parentheses that the grammar demands parses back to that tree *)
+Lemma parse_spell_minimal_proof : forall (a : xexpr) (w : wtree),
+  leaves_ok a = true -> no_fname_case a = true -> ws_ok w = true ->
+  exists e, parse_expr (spell_surface (paren a) w) = POk e [] /\ abs_or e ≈ a.
+Proof.
+  intros a w Hl Hn Hw.
+  destruct (parse_spell_surface_all (paren a) w (paren_wf a Hl) (eq_trans (nfc_paren a) Hn) Hw) as (e & Hp & Hab).
+  exists e. split; [exact Hp|]. rewrite Hab. apply paren_equiv.
 Qed.
 
 (** ** precedence and associativity *)
